@@ -51,9 +51,10 @@ type c01Op struct {
 
 type c01Ext struct {
 	AtUs int    `json:"at_us"`
-	Kind string `json:"kind"` // publish
-	Chan string `json:"chan"`
-	Msg  string `json:"msg"`
+	Kind string `json:"kind"` // publish invalidate
+	Chan string `json:"chan,omitempty"`
+	Msg  string `json:"msg,omitempty"`
+	N    int    `json:"n,omitempty"` // invalidate: pushes in the burst
 }
 
 type c01Plan struct {
@@ -234,7 +235,19 @@ func c01Run(t *testing.T, plan c01Plan) (res bubble.Result, results []*c01Result
 		}
 		for _, e := range plan.Ext {
 			e := e
-			time.AfterFunc(time.Duration(e.AtUs)*time.Microsecond, func() { srv.Publish(e.Chan, e.Msg) })
+			time.AfterFunc(time.Duration(e.AtUs)*time.Microsecond, func() {
+				if e.Kind == "invalidate" {
+					// a burst of out-of-band invalidation pushes on every tracking connection (the keys are not cached: no effect
+					// on replies); on a connection in synchronous mode they pile up in front of the next reply
+					for _, c := range srv.LiveConns() {
+						for i := 0; i < e.N; i++ {
+							srv.PushInvalidate(c.ID, []string{"other" + strconv.Itoa(i)})
+						}
+					}
+					return
+				}
+				srv.Publish(e.Chan, e.Msg)
+			})
 		}
 		finished := sim.WaitTimeout(&wg, 10*time.Minute)
 		if !finished {
@@ -340,6 +353,38 @@ func genC01Plan(rt *rapid.T) c01Plan {
 			ops[i] = op
 		}
 		p.Callers = append(p.Callers, ops)
+	}
+	if !p.Cfg.RESP2 {
+		ni := rapid.IntRange(0, 3).Draw(rt, "invalidateBursts")
+		for i := 0; i < ni; i++ {
+			p.Ext = append(p.Ext, c01Ext{AtUs: rapid.IntRange(0, 25000).Draw(rt, "invAt"), Kind: "invalidate", N: rapid.IntRange(1, 4).Draw(rt, "invN")})
+		}
+		if rapid.IntRange(0, 5).Draw(rt, "syncModeShape") == 0 {
+			// directed shape: one caller with plain contexts keeps the connection in synchronous mode (no reader goroutine),
+			// so pushes that arrive between two calls sit in front of the next reply
+			p.Cfg.AlwaysPipelining = false
+			p.Callers = p.Callers[:1]
+			var ops []c01Op
+			for _, op := range p.Callers[0] {
+				if op.Kind == "receive" {
+					continue
+				}
+				op.CancelUs, op.DeadlineUs = 0, 0
+				ops = append(ops, op)
+			}
+			if len(ops) == 0 {
+				ops = []c01Op{{Kind: "cache", Keys: []string{c01Key(rt, 0)}}}
+			}
+			p.Callers[0] = ops
+			at := 0
+			for i := range ops {
+				at += ops[i].GapUs
+				if ops[i].GapUs > 1 {
+					p.Ext = append(p.Ext, c01Ext{AtUs: at - ops[i].GapUs/2, Kind: "invalidate", N: rapid.IntRange(2, 4).Draw(rt, "burstN")})
+				}
+				at += 12000 // upper bound of what an op takes; the next gap is counted from its end, so later bursts are approximate
+			}
+		}
 	}
 	ne := rapid.IntRange(0, 6).Draw(rt, "ext")
 	for i := 0; i < ne; i++ {
